@@ -11,7 +11,7 @@ EXPL = ('Admission rule of the last valid chunk (header CRC equal edge and a suc
         'the ordered repair sequence of jls_rd_open on every path from the not-closed branch to the published instance (truncate, '
         'rewrite last chunk, pointer repair loop, FSR rebuild loop, END, close, read-only reopen) with the loop bodies conditional only '
         'on the allowed skip conditions, chunk-then-link order of every data chunk writer, and who-may-truncate.')
-NOT_DECIDED = 'Exact agreement with the submitted prefix, the loss bound, and termination of the backward scans on arbitrary bytes.'
+NOT_DECIDED = ('Exact agreement with the submitted prefix and the loss bound.  A torn in-place header rewrite in mid-file is not repaired by the library (the affected signal then returns error codes); no rule covers it.')
 
 
 def run(ctx, sess):
